@@ -1150,6 +1150,17 @@ def decode_shape(code, profile):
         cand = [sd for sd in cand if sd["lvl"] == 0]  # only states of the common base are redefined, in either branch
     if (present >= 4 or (diamond and present >= 1)) and cand:
         o = dict(cand[which % len(cand)])
+        if diamond and mode == 0 and lvl_up >= 2:
+            mode = 4  # in a diamond the redefinition that flips must_finish is the interesting one: make it common
+        if diamond and ["same", "dur", "untimed", "timed", "mf"][mode] in ("mf", "untimed") and which % 2 == 0:
+            # the flag / kind that decides what happens when engage() stops is redefined for the state the machine is in
+            # right after engage() (otherwise the difference rarely meets a withheld engage())
+            firsts = [sd for sd in states if sd.get("first") and sd["kind"] != "default"]
+            if firsts:
+                firsts[0]["lvl"] = 0  # (the first state is declared in the common base)
+                if mode == 4 and which % 4 == 0:
+                    firsts[0]["mf"] = True  # ... and the common base's version is the must_finish one, the redefinition is not
+                o = dict(firsts[0])
         o["lvl"] = min(levels - 1, o["lvl"] + 1 + lvl_up % 2)
         o["script"] = []
         o["sig"] = SIGS[sig_c]
